@@ -13,7 +13,7 @@ PROPS = ("C04",)
 
 def plan(tier, seed):
     specs = ec.plan_e2e(seed, 4, MIX, 200 if tier == "quick" else 2000, nwcap=12 if tier == "quick" else 24)
-    if tier == \"thorough\":
+    if tier == "thorough":
         specs += ec.fixture_specs()
     return specs
 
